@@ -128,7 +128,7 @@ Definition with_peer (s : cstate) (p : N) (q : cpeer) : cstate :=
   mk_cstate (cs_init s) (cs_lg s) (cs_st s) (cs_tr s) (cs_clock s) (aput p q (cs_peers s)).
 
 (* one event: the state after it and whether the call reported an error (false for events that are no calls) *)
-Definition cstep1 (s : cstate) (ev : cev) : cstate * bool :=
+Definition clstep1 (s : cstate) (ev : cev) : cstate * bool :=
   let k := cs_clock s in
   match ev with
   | EvPeerRemove caller target o os =>
@@ -209,13 +209,13 @@ Definition cstep1 (s : cstate) (ev : cev) : cstate * bool :=
       end
   end.
 
-Definition cstep (s : cstate) (ev : cev) : cstate * bool :=
-  let r := cstep1 s ev in (with_clock (fst r), snd r).
+Definition clstep (s : cstate) (ev : cev) : cstate * bool :=
+  let r := clstep1 s ev in (with_clock (fst r), snd r).
 
-Definition crun (s : cstate) (evs : list cev) : cstate := fold_left (fun s e => fst (cstep s e)) evs s.
+Definition clrun (s : cstate) (evs : list cev) : cstate := fold_left (fun s e => fst (clstep s e)) evs s.
 
 (* a cluster that has not run yet: nothing logged, nobody removed, nothing cleaned *)
 Definition fresh_peer (q : cpeer) : bool := negb (cp_removed q) && Nat.eqb (cp_cleans q) 0.
-Definition cinit_ok (s : cstate) : bool :=
+Definition clinit_ok (s : cstate) : bool :=
   match cs_lg s, cs_tr s with [], [] => true | _, _ => false end
   && Nat.eqb (cs_clock s) 0 && forallb (fun pq => fresh_peer (snd pq)) (cs_peers s).
